@@ -4,6 +4,7 @@ The real encoder/decoder run under a virtual wall clock (time_machine) and a
 switched host zone (TZ + tzset); the oracle is zoneinfo arithmetic.
 """
 
+import enum
 from datetime import date, datetime, timedelta, timezone
 
 from .. import env
@@ -14,6 +15,21 @@ FIXED_EPOCHS = [1_700_000_000 + k * 7_654_321 % 63_072_000 for k in range(96)]
 MALFORMED = ["21:00\n", "21:00\r\n", "21:00\n:junk", "21:00 x", "21:00\t", "\n21:00x", "12:30Z", "12:30+02", "08:15-11", "21:00+0545", "06:45.5", "1_2:30", "12:3_0", "12:30am", "T12:30", "12h30", "0x0c:1e",
              "", "2100", "21", "ab:cd", "x1:00", "12:y", "24:00", "25:10", "99:99", "12:60", "12:75",
              "-1:30", "12:-5", ":", ":30", "12:", "noon", "1200:", "12;30", "１２:３０"]
+
+
+class Shown(str):
+    """A str whose str() and format() show something else than its value."""
+
+    def __str__(self):
+        return "<time>"
+
+    def __format__(self, spec):
+        return "<time>"
+
+
+class Raw(bytes):
+    def __str__(self):
+        return "<raw>"
 
 
 def instants_for(zone: str, r, n_random: int):
@@ -111,6 +127,24 @@ class C11(Prop):
                     continue
                 if back != s:
                     acc.violation("round-trip", f"{s} -> {h} -> {back} in {zone} on {today}", {"time": s, "hex": h, "back": back})
+                if m % 41 == now % 41:
+                    # the same values handed over in the other ways Python allows
+                    forms = {"encode:keyword": lambda: enc(time_value=s), "encode:str-subclass": lambda: enc(Shown(s)),
+                             "encode:str-enum-member": lambda: enc(enum.Enum("Preset", {"MORNING": s}, type=str).MORNING),
+                             "decode:keyword": lambda: dec(hex_timestamp=h.encode()), "decode:bytearray": lambda: dec(bytearray(h.encode())),
+                             "decode:bytes-subclass": lambda: dec(Raw(h.encode())), "decode:str": lambda: dec(h)}
+                    for form, fn in forms.items():
+                        acc.ev()
+                        acc.count("call_forms")
+                        try:
+                            out = fn()
+                        except Exception as exc:
+                            acc.violation(f"{form.split(':')[0]}-raised:{form.split(':')[1]}", f"{s} / {h} in {zone} passed as {form} raised {type(exc).__name__}: {exc}",
+                                          {"time": s, "hex": h, "form": form})
+                            continue
+                        exp_ok = (out == s) if form.startswith("decode") else (isinstance(out, str) and len(out) == 8 and int.from_bytes(bytes.fromhex(out), "little") in want)
+                        if not exp_ok:
+                            acc.violation(f"result-depends-on-call-form:{form}", f"{s} / {h} in {zone} passed as {form} gives {out!r}", {"time": s, "hex": h, "form": form})
             acc.ev(1440 - gaps)
             acc.skip_unspecified(gaps)
             acc.count("minutes_in_gap_skipped", gaps)
